@@ -30,6 +30,18 @@ func VerifH_C13_readonly() {
 		}
 	}
 	vMergeForks(bkt)
+	// optionally a writer has merged them since: one current version with
+	// superseded history behind it (something a vacuum could reclaim)
+	merged := symParam("history", 1) == 1 && nv > 0 && symChoice("merged-history", 2) == 1
+	if merged {
+		mw := vMustOpen(bkt.client(9), vTableOpts{bf: 2}, 200)
+		if err := vIns(mw, 210, 30, 3, nil); err != nil {
+			panic(err)
+		}
+		if err := mw.Commit(vCtx); err != nil {
+			panic(err)
+		}
+	}
 	before := bkt.snapshot()
 	m0 := bkt.muts
 	ro, err := vOpen(bkt.client(1), vTableOpts{bf: 2, readOnly: true}, 500)
@@ -37,7 +49,11 @@ func VerifH_C13_readonly() {
 	tables["t"] = ro
 	rows0, err := vScan(ro)
 	symAssert(err == nil, "scan-ok")
-	symAssert(len(rows0) == nv, "sees-all-versions")
+	if merged {
+		symAssert(len(rows0) == nv+1, "sees-all-versions")
+	} else {
+		symAssert(len(rows0) == nv, "sees-all-versions")
+	}
 	steps := symParam("steps", 2)
 	for i := 0; i < steps; i++ {
 		switch symChoice("op", 8) {
